@@ -30,10 +30,17 @@ func baseGen(r *rand.Rand, k int) GenCfg {
 	}
 	n := len(w)
 	g := GenCfg{Weights: w, Epochs: 1, EpochEvents: 10*n + r.Intn(8*n), MaxParents: 2 + r.Intn(n), ForkProb: 0.15,
-		LazyFrame: 0.03, Lag: 0.1, Partition: r.Intn(3) == 0, OldParent: 0.15}
+		LazyFrame: 0.03, Lag: 0.1, Partition: r.Intn(3) == 0, OldParent: 0.15,
+		NapProb: []float64{0, 0.04, 0.08}[r.Intn(3)], SiblingForks: 0.4}
 	if g.MaxParents < 2 {
 		g.MaxParents = 2
 	}
+	if r.Intn(2) == 0 { // dense DAG: frames advance quickly
+		g.MaxParents = n
+		g.OldParent = 0.02
+		g.Partition = false
+	}
+	g.LagHeavy = r.Intn(3) == 0
 	if g.EpochEvents > 75 {
 		g.EpochEvents = 75
 	}
@@ -57,6 +64,19 @@ func multiEpoch(r *rand.Rand, g GenCfg) GenCfg {
 var orders = []string{"topo", "lastval", "late"}
 
 var profiles = map[string]profile{
+	// experiment: dense DAGs with a slow first validator
+	"xlag": {
+		gen: func(r *rand.Rand, k int) GenCfg {
+			g := baseGen(r, k)
+			g.MaxParents = len(g.Weights)
+			g.OldParent = 0.02
+			g.Partition = false
+			g.LagHeavy = true
+			g.Cheaters = 0
+			return g
+		},
+		plays: func(r *rand.Rand, k int) []PlayOpts { return []PlayOpts{{Order: "topo"}} },
+	},
 	// order independence: generator order + three other parents-first orders, multi-epoch
 	"c01": {
 		gen: func(r *rand.Rand, k int) GenCfg {
